@@ -702,7 +702,7 @@ func (e *c07Env) genCreate() {
 	e.runCreate(sp)
 }
 
-// directed cases run at the start of every core: the shapes behind known finding C07-A and its neighbours
+// directed cases run at the start of every core: the shapes behind known finding F32 and its neighbours
 // (root parent — expiring and not —, no ttl / no period, explicit max above and below the mount max).
 func (e *c07Env) directedCreates() {
 	sysMax := int64(e.c.tokenStore.System().MaxLeaseTTL() / time.Second)
@@ -716,8 +716,8 @@ func (e *c07Env) directedCreates() {
 		lk := e.mustDo("directed parent lookup", logical.UpdateOperation, "auth/token/lookup", e.root, map[string]any{"token": par.token})
 		par.policies = append([]string{}, lk.Data["policies"].([]string)...)
 		par.ttl = lk.Data["creation_ttl"].(int64)
-		// cross-namespace: the parent-namespace root token asks for root in the child namespace, spelled three ways (C07-B),
-		// and for an ordinary token whose TTL the child namespace's own token mount tuning should bound (C07-C)
+		// cross-namespace: the parent-namespace root token asks for root in the child namespace, spelled three ways (F33),
+		// and for an ordinary token whose TTL the child namespace's own token mount tuning should bound (F34)
 		for _, pols := range [][]string{{"root"}, {"ROOT"}, {" root "}, {"Root", "a"}, {"a"}, {}} {
 			e.runCreate(&c07Spec{rns: e.ns1, par: par, ep: "create", roleName: "-", pols: pols, renewable: true, idKind: "none", alias: "-"})
 		}
